@@ -1068,3 +1068,100 @@ func dropDeadStructs(nf *ssa.Function) bool {
 	}
 	return changed
 }
+
+// scalarizeStructCopies rewrites whole-struct reads of local structs into field reads: for a load
+// L = *a of a local struct a, every `Field(L, i)` becomes a load of &a.i placed where L is, and
+// every copy `*b = L` into another local struct becomes one field store per field. What remains
+// is a struct that is only used field by field, which sroa splits and mem2reg turns into registers
+// (with φ-nodes where a field has a default and a conditional override). Loads with other uses
+// (passed to a call that was not inlined, returned, boxed) are left alone.
+// Requires referrers (finish). Returns whether anything changed.
+func scalarizeStructCopies(nf *ssa.Function) bool {
+	changed := false
+	for _, b := range nf.Blocks {
+		for _, in := range append([]ssa.Instruction(nil), b.Instrs...) {
+			L, ok := in.(*ssa.UnOp)
+			if !ok || L.Op != token.MUL || L.Referrers() == nil {
+				continue
+			}
+			a, ok := L.X.(*ssa.Alloc)
+			if !ok {
+				continue
+			}
+			st, ok := a.Type().Underlying().(*types.Pointer).Elem().Underlying().(*types.Struct)
+			if !ok {
+				continue
+			}
+			// every use of L is a Field read or a copy into a local struct alloc
+			okUses := len(*L.Referrers()) > 0
+			for _, u := range *L.Referrers() {
+				switch x := u.(type) {
+				case *ssa.Field:
+					if x.X != ssa.Value(L) {
+						okUses = false
+					}
+				case *ssa.Store:
+					if _, isAlloc := x.Addr.(*ssa.Alloc); !isAlloc || x.Val != ssa.Value(L) {
+						okUses = false
+					}
+				case *ssa.DebugRef:
+				default:
+					okUses = false
+				}
+			}
+			if !okUses {
+				continue
+			}
+			// field loads at the position of L
+			fieldLoad := map[int]*ssa.UnOp{}
+			var pre []ssa.Instruction
+			get := func(i int) *ssa.UnOp {
+				if ld, ok := fieldLoad[i]; ok {
+					return ld
+				}
+				fa := &ssa.FieldAddr{X: a, Field: i}
+				setField(fa, "typ", types.NewPointer(st.Field(i).Type()))
+				setField(fa, "pos", L.Pos())
+				ld := newLoad(fa, L.Pos())
+				pre = append(pre, fa, ld)
+				fieldLoad[i] = ld
+				return ld
+			}
+			del := map[ssa.Instruction]bool{L: true}
+			type copyTo struct {
+				st *ssa.Store
+			}
+			var copies []copyTo
+			for _, u := range append([]ssa.Instruction(nil), *L.Referrers()...) {
+				switch x := u.(type) {
+				case *ssa.Field:
+					replaceUses(nf, x, get(x.Field))
+					del[x] = true
+				case *ssa.Store:
+					copies = append(copies, copyTo{x})
+				case *ssa.DebugRef:
+					del[x] = true
+				}
+			}
+			for _, cp := range copies {
+				dst := cp.st.Addr.(*ssa.Alloc)
+				var ins []ssa.Instruction
+				for i := 0; i < st.NumFields(); i++ {
+					ld := get(i)
+					fb := &ssa.FieldAddr{X: dst, Field: i}
+					setField(fb, "typ", types.NewPointer(st.Field(i).Type()))
+					setField(fb, "pos", cp.st.Pos())
+					ins = append(ins, fb, newStore(fb, ld, cp.st.Pos()))
+				}
+				insertBefore(cp.st.Block(), cp.st, ins...)
+				del[cp.st] = true
+			}
+			insertBefore(L.Block(), L, pre...)
+			for _, blk := range nf.Blocks {
+				removeInstr(blk, del)
+			}
+			changed = true
+		}
+	}
+	return changed
+}
